@@ -4,7 +4,7 @@
    The model (C12_Model: Connector + client side of TcpClient + the TcpConnection life cycle it touches) is tied to
    muduo/net/Connector.cc, TcpClient.cc by bin/check C12 (differential execution, regenerated facts Gen_C12/Gen_Consts). *)
 From Coq Require Import List ZArith Lia Bool Arith.
-From Muduo Require Import Gen_Consts Gen_C12 C12_Model C12_Hyg C12_Trace C12_Inv C12_Proofs C12_Loop C12_Progress.
+From Muduo Require Import Gen_Consts Gen_C12 C12_Model C12_Hyg C12_Trace C12_Inv C12_Proofs C12_Loop C12_Progress C12_LoopEnd C12_Chain.
 Import ListNotations.
 Local Open Scope Z_scope.
 
@@ -90,9 +90,21 @@ Print Assumptions C12_stop_silences.
         the user does not drop the last reference of a connection that is still up (release_ok).
         `admissible init l`: every executed step of l satisfies the contract (rejected ops did not happen). *)
 
+(* ... and (REVIEW_E E-2) the EventLoop outlives the client's cleanup: `LoopEnd` (EventLoop::~EventLoop after the loop has stopped
+   for good: queued functors and timers are destroyed UNRUN) only in a state in which nothing that is dropped was still
+   needed (`loop_outlives_cleanup`).  The clause of `contract` for LoopEnd, spelled out: *)
+Theorem C12_contract_loop_end_clause : forall s,
+  contract s LoopEnd = loop_outlives_cleanup s /\
+  (loop_outlives_cleanup s = true <->
+   k_chan s = None /\ forall c o, nth_error (conns s) c = Some o -> conn_done o = true).
+Proof. exact (fun s => conj eq_refl (loop_outlives_spec s)). Qed.
+Print Assumptions C12_contract_loop_end_clause.
+
 (* destroy_safe_on_loop / crash freedom: no step of an admissible history is a Fault, i.e. no assert of
    Connector / TcpClient / TcpConnection / Channel fails and nothing is called through a pointer to a destroyed
-   Connector, TcpClient (newConnection, removeConnection) or TcpConnection (shutdownInLoop) *)
+   Connector, TcpClient (newConnection, removeConnection) or TcpConnection (shutdownInLoop).
+   `admissible` includes loop_outlives_cleanup at every LoopEnd (C12_contract_loop_end_clause); that this hypothesis cannot
+   be dropped: C12_loop_outlives_cleanup_refuted, C12_destroy_then_loop_end_refuted *)
 Theorem C12_destroy_safe_on_loop : forall l, admissible init l -> run init l <> None.
 Proof. exact no_fault. Qed.
 Print Assumptions C12_destroy_safe_on_loop.
@@ -111,6 +123,38 @@ Theorem C12_destroy_no_leak : forall s, reachable s ->
   (forall i x, nth_error (socks s) i = Some x -> x = Closed 1 \/ x = HandedClosed 1).
 Proof. exact destroyed_quiescent. Qed.
 Print Assumptions C12_destroy_no_leak.
+
+(* the hypotheses `pending s = []`, `timers s = []` of C12_destroy_no_leak say that the loop kept running until everything
+   ~TcpClient queued had run; they imply loop_outlives_cleanup, so the EventLoop may be destroyed then *)
+Theorem C12_drained_loop_outlives_cleanup : forall s, reachable s -> alive s = false -> drained s = true ->
+  (forall c o, nth_error (conns s) c = Some o -> cuser o = 0%nat) -> loop_outlives_cleanup s = true.
+Proof. exact drained_outlives. Qed.
+Print Assumptions C12_drained_loop_outlives_cleanup.
+
+(* ~EventLoop under the hypothesis: the step is not a Fault and leaves nothing behind (Connector gone, every connection object
+   destroyed with its descriptor closed, every socket ever created closed exactly once) *)
+Theorem C12_loop_end_no_leak : forall s s' ev, reachable s -> loop_outlives_cleanup s = true -> step s LoopEnd = Ok s' ev ->
+  k_dead s' = true /\ k_chan s' = None /\ pending s' = [] /\ timers s' = [] /\
+  (forall c o, nth_error (conns s') c = Some o -> calive o = false /\ nth_error (socks s') (csock o) = Some (HandedClosed 1)) /\
+  (forall i x, nth_error (socks s') i = Some x -> x = Closed 1 \/ x = HandedClosed 1).
+Proof. exact loop_end_no_leak. Qed.
+Print Assumptions C12_loop_end_no_leak.
+
+(* which client states make `~TcpClient; ~EventLoop` (scope exit, nothing run in between) safe: no connection, no channel
+   (no attempt in progress, no resetChannel queued), no connection object still waiting for connectDestroyed, no user reference
+   - i.e. an idle, a stopped-and-drained, or a backing-off client.  stopInLoop, the 1 s timer and a pending retry timer are
+   dropped unrun, harmlessly *)
+Theorem C12_destroy_then_loop_end_safe : forall s, reachable s ->
+  user_api_ok s = true -> xc s = false -> xs s = false -> xd s = false ->
+  connection s = None -> loop_outlives_cleanup s = true ->
+  (forall c o, nth_error (conns s) c = Some o -> cuser o = 0%nat) ->
+  exists s1 ev1 s2 ev2, step s Destroy = Ok s1 ev1 /\ contract s Destroy = true /\
+    loop_outlives_cleanup s1 = true /\ step s1 LoopEnd = Ok s2 ev2 /\
+    k_dead s2 = true /\ pending s2 = [] /\ timers s2 = [] /\
+    (forall c o, nth_error (conns s2) c = Some o -> calive o = false) /\
+    (forall i x, nth_error (socks s2) i = Some x -> x = Closed 1 \/ x = HandedClosed 1).
+Proof. exact destroy_then_loop_end_safe. Qed.
+Print Assumptions C12_destroy_then_loop_end_safe.
 
 (* back-off: every cycle starts at 500 ms and the k-th failed attempt of a cycle arms min(500 * 2^k, 30000) ms *)
 Theorem C12_backoff : forall l s ev, admissible init l -> run init l = Some (s, ev) -> backoff_ok 0 ev.
@@ -209,6 +253,70 @@ Theorem C12_exactly_one_up : forall l s0 ev0 i, admissible init l -> run init l 
 Proof. exact exactly_one_up. Qed.
 Print Assumptions C12_exactly_one_up.
 
+(* ---- the progress halves with their whole post-state, so that they chain (REVIEW_E E-7) *)
+
+(* a failed attempt that is wanted: events, timer, delay, and what the next steps need (channel unregistered with resetChannel
+   queued, state kDisconnected, kernel script / clock / client untouched) *)
+Theorem C12_failed_attempt_state : forall s i o, reachable s -> k_chan s = Some (i, true) -> k_dead s = false -> k_connect s = true -> is_failure o ->
+  exists s' g, step s o = Ok s' ([EvClose i; EvArm (k_delay s)] ++ g) /\ Forall is_connclose g /\ contract s o = true /\
+    k_state s' = KDisconnected /\ k_chan s' = Some (i, false) /\ pending s' = pending s ++ [FResetChannel] /\
+    timers s' = timers s ++ [(now s + k_delay s, TRetry)] /\ k_delay s' = Z.min (2 * k_delay s) 30000 /\
+    k_connect s' = true /\ k_dead s' = false /\ kq s' = kq s /\ now s' = now s + 1 /\ alive s' = true /\
+    length (conns s') = length (conns s) /\ length (socks s') = length (socks s) /\ connection s' = None.
+Proof. exact failed_attempt_state. Qed.
+Print Assumptions C12_failed_attempt_state.
+
+(* the loop's next functor batch runs the queued resetChannel and nothing else changes *)
+Theorem C12_reset_batch_state : forall s, reachable s -> alive s = true -> k_dead s = false -> pending s = [FResetChannel] ->
+  exists s' g, step s RunPending = Ok s' g /\ Forall is_connclose g /\
+    k_chan s' = None /\ pending s' = [] /\ k_state s' = k_state s /\ timers s' = timers s /\ k_delay s' = k_delay s /\
+    k_connect s' = k_connect s /\ k_dead s' = false /\ kq s' = kq s /\ now s' = now s + 1 /\ alive s' = true /\
+    length (conns s') = length (conns s) /\ length (socks s') = length (socks s) /\ connection s' = connection s.
+Proof. exact reset_batch_state. Qed.
+Print Assumptions C12_reset_batch_state.
+
+(* the link: "attempt started => state kConnecting with a registered channel on exactly that socket" (when ::connect proceeds),
+   i.e. the premise of C12_success_reports_up / C12_failed_attempt_arms / C12_exactly_one_up; the step ends at max(now, d) + 1 *)
+Theorem C12_timer_fires_attempt_state : forall s d, reachable s -> In (d, TRetry) (timers s) -> pending s = [] ->
+  k_connect s = true -> k_dead s = false -> next_connect_proceeds s ->
+  exists s' g e, step s TimerFire = Ok s' ([EvAttempt (length (socks s)) e] ++ g) /\ Forall is_connclose g /\ contract s TimerFire = true /\
+    classify e = ActConnecting /\
+    k_state s' = KConnecting /\ k_chan s' = Some (length (socks s), true) /\ k_connect s' = true /\ k_dead s' = false /\
+    now s' = Z.max (now s) d + 1 /\ timers s' = [] /\ pending s' = [] /\ k_delay s' = k_delay s /\
+    length (conns s') = length (conns s) /\ connection s' = connection s.
+Proof. exact timer_fires_attempt_state. Qed.
+Print Assumptions C12_timer_fires_attempt_state.
+
+(* the chain: a wanted attempt in progress fails (o); the loop runs its functor batch; the environment fires the retry timer the failure
+   armed and then lets the new attempt succeed.  Then: the extended history is admissible; the failure armed the current delay d; the new
+   attempt was started by the step that set the clock to exactly (time of the failure) + d; its socket is the one handed over; the
+   cycle has exactly one UP; the connection is the client's. *)
+Theorem C12_retry_chain : forall l s0 ev0 i o, admissible init l -> run init l = Some (s0, ev0) ->
+  k_chan s0 = Some (i, true) -> k_dead s0 = false -> k_connect s0 = true -> pending s0 = [] -> 2 <= k_delay s0 ->
+  next_connect_proceeds s0 -> is_failure o ->
+  let h := [o; RunPending; TimerFire; EvWritable 0 false] in
+  exists s ev e g1 g2 g3 g4,
+    run init (l ++ h) = Some (s, ev0 ++ ev) /\ admissible init (l ++ h) /\
+    ev = ([EvClose i; EvArm (k_delay s0)] ++ g1) ++ g2 ++ ([EvAttempt (length (socks s0)) e] ++ g3) ++
+         ([EvHandOver (length (socks s0)); EvUp (length (conns s0))] ++ g4) /\
+    Forall is_connclose (g1 ++ g2 ++ g3 ++ g4) /\
+    ups_after 0 (ev0 ++ ev) = 1%nat /\ connection s = Some (length (conns s0)) /\
+    (exists s3 ev3, run init (l ++ [o; RunPending; TimerFire]) = Some (s3, ev0 ++ ev3) /\ now s3 = now s0 + k_delay s0 + 1 /\
+                    k_state s3 = KConnecting /\ k_chan s3 = Some (length (socks s0), true) /\
+                    k_delay s3 = Z.min (2 * k_delay s0) 30000).
+Proof. exact retry_chain. Qed.
+Print Assumptions C12_retry_chain.
+
+(* its hypothesis on the delay holds (with 500) in every state of a live-loop history *)
+Theorem C12_delay_at_least_500 : forall s q, lreachable s q -> 500 <= k_delay s.
+Proof. exact delay_at_least_500. Qed.
+Print Assumptions C12_delay_at_least_500.
+
+Example C12_retry_chain_example : exists s0 ev0, admissible init [Connect] /\ run init [Connect] = Some (s0, ev0) /\
+  k_chan s0 = Some (0%nat, true) /\ k_dead s0 = false /\ k_connect s0 = true /\ pending s0 = [] /\ 2 <= k_delay s0 /\
+  next_connect_proceeds s0 /\ is_failure EvError.
+Proof. exact retry_chain_example. Qed.
+
 (* ---- the findings: what the property text allows and the code does not survive *)
 Theorem C12_stop_then_connect_refuted :
   (text_admissible init w_f10 /\ run init w_f10 = None) /\
@@ -246,6 +354,24 @@ Theorem C12_release_after_destroy_refuted : text_admissible init w_release /\ ru
 Proof. exact release_after_destroy_refuted. Qed.
 Print Assumptions C12_release_after_destroy_refuted.
 
+(* REVIEW_E E-2 (candidate finding, key client-destroyed-then-loop-destroyed): `EventLoop loop; TcpClient client(&loop, ..); ..
+   loop.loop(); }` - ~TcpClient then ~EventLoop with nothing run in between (or one functor batch only).  Each witness satisfies
+   every hypothesis the theorems had before (contract_any_loop_end) and everything the property text asks for, its prefix is
+   admissible, the state before LoopEnd violates loop_outlives_cleanup, and LoopEnd is a Fault:
+   connected (assert in ~TcpConnection), connecting (assert in ~Connector), connected + one batch (assert in ~Channel),
+   peer closed in the last iteration (~Channel), failed attempt with resetChannel queued (~Connector) *)
+Theorem C12_destroy_then_loop_end_refuted :
+  e2_witness w_e2_connected /\ e2_witness w_e2_connecting /\ e2_witness w_e2_one_batch /\
+  e2_witness w_e2_peer_closed /\ e2_witness w_e2_reset_queued.
+Proof. exact destroy_then_loop_end_refuted. Qed.
+Print Assumptions C12_destroy_then_loop_end_refuted.
+
+(* the hypothesis loop_outlives_cleanup is needed: without it crash freedom is false *)
+Theorem C12_loop_outlives_cleanup_refuted :
+  exists l, admissible_with contract_any_loop_end init l /\ run init l = None.
+Proof. exact loop_outlives_cleanup_refuted. Qed.
+Print Assumptions C12_loop_outlives_cleanup_refuted.
+
 Theorem C12_stalled_loop_refuted :
   run init [Destroy; TimerFire; RunPending] = None /\ run init [Connect; EvError; TimerFire] = None.
 Proof. exact stalled_loop_refuted. Qed.
@@ -259,3 +385,10 @@ Example C12_examples :
       socks s = [HandedClosed 1; HandedClosed 1]) /\
   (admissible init ex_foreign /\ exists s ev, run init ex_foreign = Some (s, ev) /\ k_dead s = true /\ socks s = [HandedClosed 1]).
 Proof. exact examples_admissible. Qed.
+
+(* ~TcpClient then ~EventLoop for an idle client, a client backing off, and after two functor batches: admissible, everything closed *)
+Example C12_loop_end_examples :
+  (admissible init w_e2_idle /\ exists s ev, run init w_e2_idle = Some (s, ev) /\ k_dead s = true /\ pending s = [] /\ timers s = []) /\
+  (admissible init w_e2_backoff /\ exists s ev, run init w_e2_backoff = Some (s, ev) /\ k_dead s = true /\ socks s = [Closed 1]) /\
+  (admissible init w_e2_drained /\ exists s ev, run init w_e2_drained = Some (s, ev) /\ k_dead s = true /\ socks s = [HandedClosed 1]).
+Proof. exact loop_end_examples. Qed.
